@@ -254,6 +254,8 @@ class Gen:
         for m in mix:
             self.by_esig.setdefault(esig(m), []).append(m)
         self.failable = [t for t in cat if wg.count_leaves(wg.parse_ext(t), "sogh") > 0]
+        # the typed variant wrappers around Rust types at the limits of what a variant may carry (gen/catalogue.py marshal_only)
+        self.var_limits = [t for t in wg.catalogue_marshal_only() if t.startswith("v[") and (len(t) > 200 or t.startswith("v[aaaaaaaa"))]
         self.mix_failable = [t for t in mix if wg.count_leaves(wg.parse_ext(t), "sogh") > 0]
         # types whose decoding can fail after bytes were consumed
         self.rich = [t for t in mix if wg.count_leaves(wg.parse_ext(t), "sogb") > 0 or not t[0].isalpha() or t[0] in "av"]
@@ -682,7 +684,7 @@ class Gen:
                 items[-1] = "v[y]"
             d -= k
         # failing pushes of every kind around the boundary, small successful pushes in between
-        kinds = ["push", "pushv", "pushn", "pushm", "old", "olds", "oldtree", "params"]
+        kinds = ["push", "pushv", "pushvi", "pushn", "pushm", "old", "olds", "oldtree", "params"]
         r.shuffle(kinds)
         for kind in kinds[:r.randint(4, 8)]:
             ops.append(self.failing(kind))
@@ -715,6 +717,11 @@ class Gen:
         if kind == "pushv":
             ty = r.choice(late)
             return "BPUSHV %s %s" % (ty, self.value(ty, bad=True)[0])
+        if kind == "pushvi":
+            # push_variant of a Rust type whose OWN signature a variant must not carry (256 / 320 characters, 33 nested
+            # arrays: refused before a byte is written, after "v" went into the body signature) or just may (255, 32)
+            ty = r.choice(self.var_limits)
+            return "BPUSHVI %s %s" % (ty, self.value(ty)[0])
         if kind in ("pushn", "params"):
             ty = r.choice(self.failable)
             n = r.choice([2, 3, 4, 5]) if kind == "pushn" else r.choice([6, 7, 9])
@@ -753,7 +760,7 @@ class Gen:
         for _ in range(r.choice([1, 1, 2])):
             at = r.randint(1, end)
             ins = [r.choice(["BRECV", "BRECV", "BRECV", "BOFF %d" % self.an_offset(), "BOFF %d" % self.an_offset(), self.beyond()])]
-            kinds = ["push", "pushv", "pushn", "pushm", "old", "olds", "oldtree", "params"]
+            kinds = ["push", "pushv", "pushvi", "pushn", "pushm", "old", "olds", "oldtree", "params"]
             for _ in range(r.choice([1, 1, 2, 3])):
                 ins.append(self.failing(r.choice(kinds)))
             if r.random() < 0.3:
